@@ -602,7 +602,7 @@ pub fn server_config(cfg: &Cfg, string_ids: bool) -> ServerConfig {
 pub fn server_config_with_ids(cfg: &Cfg, string_ids: bool, forced: Arc<Mutex<std::collections::VecDeque<Value>>>) -> ServerConfig {
 	type B = jsonrpsee_server::ServerConfigBuilder;
 	// every setter of the builder is independent of the others: they are applied in an order that depends on the
-	// configuration itself (a rotation of the list below), so no setter may reset what another one has set
+	// configuration itself (a permutation of the list below), so no setter may reset what another one has set
 	let mut setters: Vec<Box<dyn FnOnce(B) -> B>> = vec![];
 	let (max_request, max_response, max_connections, max_subs, buf) = (cfg.max_request, cfg.max_response, cfg.max_connections, cfg.max_subs, cfg.buffer_capacity.max(1));
 	setters.push(Box::new(move |b: B| b.max_request_body_size(max_request)));
@@ -629,9 +629,13 @@ pub fn server_config_with_ids(cfg: &Cfg, string_ids: bool, forced: Arc<Mutex<std
 		2 => setters.push(Box::new(|b: B| b.ws_only())),
 		_ => {}
 	}
-	let n = setters.len();
-	let rot = (cfg.max_request as usize ^ cfg.max_response as usize ^ cfg.max_connections as usize ^ cfg.max_subs as usize ^ cfg.buffer_capacity as usize ^ cfg.mode as usize) % n;
-	setters.rotate_left(rot);
+	// (a permutation drawn from the configuration's own values)
+	let mut x: u64 = 0x9e37_79b9_7f4a_7c15 ^ (cfg.max_request as u64) ^ ((cfg.max_response as u64) << 7) ^ ((cfg.max_connections as u64) << 13) ^ ((cfg.max_subs as u64) << 19) ^ ((cfg.buffer_capacity as u64) << 23) ^ ((cfg.mode as u64) << 29) ^ ((string_ids as u64) << 31) ^ ((cfg.id_escapes as u64) << 33) ^ ((cfg.via_set_rpc_middleware as u64) << 35) ^ ((cfg.via_set_http_middleware as u64) << 37) ^ ((cfg.entry as u64) << 39);
+	for i in (1..setters.len()).rev() {
+		x = x.wrapping_mul(6364136223846793005).wrapping_add(1442695040888963407);
+		let j = (x >> 33) as usize % (i + 1);
+		setters.swap(i, j);
+	}
 	let mut b = ServerConfig::builder();
 	for s in setters {
 		b = s(b);
